@@ -30,3 +30,10 @@ CASES = [
       "        if rank <= remainder:\n            if rank != 0:\n                N1_local += rank-1\n                N2_local += rank\n        else:",
       "        if rank <= remainder and rank != 0:\n            N1_local += rank-1\n            N2_local += rank\n        elif rank <= remainder:\n            pass\n        else:"),
 ]
+
+CASES += [
+    m("list helper numbers the elements of the block from zero", "C20-E", P,
+      "            for a in range(rng[0],rng[1]):\n                lst.append((a, dlist[a]))", "            for a in range(rng[0],rng[1]):\n                lst.append((a-rng[0], dlist[a]))"),
+    m("array helper hands out the whole array again (the repaired defect)", "C20-E", P,
+      "            for a in range(rng[0],rng[1]):\n                lst.append((a, array[a]))", "            for a in range(array.shape[0]):\n                lst.append((a, array[a]))"),
+]
